@@ -1334,6 +1334,46 @@ func GenC18(seed, index uint64, build string) *Run {
 	if r.P(0.3) {
 		sc.MaxChunk = 1 + r.N(40)
 	}
+	// now and then a very long run of rejected blocks (up to 2^17, in the deep
+	// tier 2^20): "skipped by drawing again" has no limit in the statement, a
+	// give-up counter in the implementation would. Single caller only (the run
+	// costs a few hundred thousand loop iterations).
+	pLong := 1.0 / 1500
+	if Deep {
+		pLong = 1.0 / 300
+	}
+	if nt == 1 && build == "plain" && r.P(pLong) {
+		maxLog := 17
+		if Deep {
+			maxLog = 20
+		}
+		count := 1 << uint(6+r.N(maxLog-5))
+		count += r.N(count)
+		rep := &entropy.Repeat{At: 32 * r.N(len(stream)/32+1), Count: count}
+		switch r.N(3) {
+		case 0:
+			rep.Blocks = []string{hex.EncodeToString(make([]byte, 32))}
+		case 1:
+			rep.Blocks = []string{hex.EncodeToString(be32(model.N))}
+		default:
+			rep.Blocks = []string{hex.EncodeToString(make([]byte, 32)), hex.EncodeToString(be32(model.N))}
+		}
+		if len(stream) == 0 || r.P(0.7) {
+			// make sure an acceptable block follows the run
+			stream = append(append(append([]byte{}, stream[:rep.At]...), be32(g1toN(r))...), stream[rep.At:]...)
+			sc.Hex = hex.EncodeToString(stream)
+		}
+		for i := range sc.Events {
+			if sc.Events[i].Off >= rep.At {
+				sc.Events[i].Off += 32 * count
+			}
+		}
+		if sc.MaxChunk > 0 && sc.MaxChunk < 16 {
+			sc.MaxChunk = 16 + r.N(48)
+		}
+		sc.Rep = rep
+		sc.Stream = nil
+	}
 	run.Entropy = sc
 	if nt > 1 {
 		p := 0.001 + 0.3*r.F()*r.F()
@@ -1349,6 +1389,13 @@ func GenC18(seed, index uint64, build string) *Run {
 		run.Sched = sched.Spec{Policy: "serial"}
 	}
 	return run
+}
+
+// g1toN returns a uniformly drawn integer in [1, n-1].
+func g1toN(r *prng.R) *big.Int {
+	v := new(big.Int).SetBytes(r.Bytes(32))
+	v.Mod(v, new(big.Int).Sub(model.N, big.NewInt(1)))
+	return v.Add(v, big.NewInt(1))
 }
 
 func sortEvents(ev []entropy.Event) []entropy.Event {
